@@ -184,6 +184,7 @@ func treeKey(dir string) string {
 
 type c20Scenario struct {
 	Name      string
+	NoClobber bool
 	OldDoc    []byte // nil: first-time store
 	NewDoc    []byte
 	Neighbour []byte
@@ -205,8 +206,9 @@ func c20Run(env *storeEnv, sc c20Scenario, work string) (int, int, error) {
 		}
 	}
 	must(os.MkdirAll(pre, 0o755))
+	noClobber := false
 	storeReq := func(dir string, doc []byte) []childReq {
-		return []childReq{{Op: "store", Dir: filepath.Join(dir, base), Doc: base64.StdEncoding.EncodeToString(doc)}}
+		return []childReq{{Op: "store", Dir: filepath.Join(dir, base), Doc: base64.StdEncoding.EncodeToString(doc), NoClobber: noClobber}}
 	}
 	for _, d := range [][]byte{sc.Neighbour, sc.OldDoc} {
 		if d != nil {
@@ -216,6 +218,8 @@ func c20Run(env *storeEnv, sc c20Scenario, work string) (int, int, error) {
 		}
 	}
 	oldKey := treeKey(pre)
+	noClobber = sc.NoClobber
+	refused := sc.NoClobber && sc.OldDoc != nil // the store must be refused and leave the old document
 	// (1) trace the uncrashed store
 	traced := filepath.Join(work, "traced")
 	must(copyTree(pre, traced))
@@ -226,7 +230,7 @@ func c20Run(env *storeEnv, sc c20Scenario, work string) (int, int, error) {
 	if other > 0 {
 		return 0, 0, fmt.Errorf("HARNESS-SELFTEST the store issued %d file-system calls from threads other than the main thread; the crash-point index is not stable", other)
 	}
-	if len(calls) == 0 {
+	if len(calls) == 0 && !refused {
 		return 0, 0, fmt.Errorf("HARNESS-SELFTEST no file-system calls of the store were found in the trace")
 	}
 	newKey := treeKey(traced)
@@ -345,7 +349,10 @@ func c20Run(env *storeEnv, sc c20Scenario, work string) (int, int, error) {
 			if x.NilDoc || (!isOld && !isNew) {
 				return len(states), nontrivial, fmt.Errorf("scenario %s, crash state %q: retrieve returned neither an error nor the complete old or new document (got %d bytes: %s)", sc.Name, st.What, len(raw), trunc(fmt.Sprintf("%v", got), 300))
 			}
-			if i == 0 && !isNew {
+			if refused && !isOld {
+				return len(states), nontrivial, fmt.Errorf("scenario %s, state %q: a store refused by no-clobber replaced the old document", sc.Name, st.What)
+			}
+			if i == 0 && !isNew && !refused {
 				return len(states), nontrivial, fmt.Errorf("scenario %s: after the complete store the new document is not retrieved", sc.Name)
 			}
 		} else if i == 0 {
@@ -417,16 +424,17 @@ func TestC20(t *testing.T) {
 	cnt := 0
 	for di := 0; di < ndocs; di++ {
 		for si, size := range sizes {
-			for _, scn := range []string{"first_store", "overwrite_other_length", "overwrite_with_neighbour"} {
+			for _, scn := range []string{"first_store", "first_store_noclobber", "overwrite_other_length", "overwrite_with_neighbour", "overwrite_refused_by_noclobber"} {
 				cnt++
 				if cnt%shards != shard {
 					continue
 				}
 				id := fmt.Sprintf("urn:doc:%d", di)
 				sc := c20Scenario{Name: scn, ID: id, NewDoc: genC20Doc(seed*1000+di*10+si, id, size)}
-				if scn != "first_store" {
+				if !strings.HasPrefix(scn, "first_store") {
 					sc.OldDoc = genC20Doc(seed*1000+di*10+si+500, id, size/2+7)
 				}
+				sc.NoClobber = strings.HasSuffix(scn, "noclobber")
 				if scn == "overwrite_with_neighbour" {
 					sc.Neighbour = genC20Doc(seed*1000+di*10+si+900, "urn:neighbour", 200)
 				}
